@@ -324,6 +324,15 @@ func classifyO(c CaseO) core.Class {
 			fs = append(fs, f)
 		}
 	}
+	{
+		var hl []string
+		for _, b := range c.Builds {
+			if !b.Cfg.SMB {
+				hl = append(hl, hostLabels(b.Cfg.HTTP.Hosts)...)
+			}
+		}
+		cl.Labels = append(cl.Labels, uniqS(hl)...)
+	}
 	cl.NonTrivial = true
 	cl.Fingerprint = fmt.Sprintf("%s|%s|n=%d|%s", mode, class, len(c.Builds), strings.Join(fs, "+"))
 	return cl
